@@ -1,4 +1,5 @@
 import PromModel.Tsdb.CrashFs
+import PromModel.Tsdb.CrashTear
 /-
   Suite `crash` (C03). The op lines carry *observations* of the real system (the harness cannot be
   predicted by a model here: which syscall is the n-th depends on the run), the implementation column
@@ -9,7 +10,22 @@ import PromModel.Tsdb.CrashFs
                               C03's statement on the state recovered after a kill at that syscall:
                               the directory reopens, every acknowledged (and not deleted) sample is
                               present with its value, nothing is present that was not acknowledged or in
-                              flight, and samples removed by an acknowledged deletion stay absent.
+                              flight (samples inside a deletion that had started but not returned
+                              count as in flight), and samples removed by an acknowledged deletion
+                              stay absent.
+    stage <wseed> <stage> acked=… inflight=… live=… wal=<seg>|<end>:<k+k…>;… wbl=… chunks=…
+                              the on-disk state at a kill point between two transactions: what was
+                              acknowledged, what a live query returned just before, and the layout of
+                              the newest WAL / WBL segment and chunks_head file as read back from disk.
+                              Every acknowledged sample must have been visible before the crash.
+    tear <wseed> <stage> <none|chunks|wal|wbl> <seg> <off> open=… present=… repaired=… post=… open2=… present2=…
+                              that state with one file torn at <off> (head-chunk file: zeroed from
+                              there, log segment: truncated), reopened and queried. C03's statement
+                              (`tearHolds`): the directory reopens, every acknowledged sample not
+                              carried by a destroyed log record (`CrashTear.owed`) is present, nothing
+                              is present that was neither acknowledged nor in flight; and the
+                              same again (with the second session's commits `post` acknowledged)
+                              after a second session and a clean restart.
 -/
 namespace Prom.CrashFs
 
@@ -121,27 +137,162 @@ def killHolds (open_ : String) (acked inflight gone present : List String) : Opt
       | some p => if gone.contains p then some s!"deleted-sample-back {p}" else some s!"unacknowledged-sample-present {p}"
       | none => none
 
+/-! ### Torn-file ops -/
+
+open Prom.CrashTear in
+/-- C03's statement on a state recovered from a torn file: `killHolds` with the owed samples as the
+    acknowledged set and the samples of the destroyed records as additional in-flight ones. -/
+def tearHolds (open_ : String) (acked inflight present : List String) (off : Nat) (recs : List Rec) :
+    Option String :=
+  killHolds open_ (owed acked off recs) (inflight ++ lost off recs) [] present
+
+structure Stage where
+  acked : List String := []
+  inflight : List String := []
+  live : List String := []
+  wal : List CrashTear.Rec := []
+  wbl : List CrashTear.Rec := []
+  chunks : List (Nat × Nat × Bool) := []   -- start, end, out-of-order
+deriving Inhabited
+
+/-- `<seg>|<item>;<item>…` → items. -/
+def layoutItems (s : String) : List String :=
+  match s.splitOn "|" with
+  | [_, body] => if body = "-" then [] else body.splitOn ";"
+  | _ => []
+
+def parseRec (r : String) : Option CrashTear.Rec :=
+  match r.splitOn ":" with
+  | e :: rest =>
+    match e.toNat? with
+    | some n => some (n, if rest = ["-"] then [] else (":".intercalate rest).splitOn "+")
+    | none => none
+  | [] => none
+
+def parseChunk (r : String) : Option (Nat × Nat × Bool) :=
+  match r.splitOn ":" with
+  | a :: b :: k :: _ =>
+    match a.toNat?, b.toNat? with
+    | some x, some y => some (x, y, k == "o")
+    | _, _ => none
+  | _ => none
+
+def parseStage (fs : List String) : Option Stage :=
+  match field fs "acked", field fs "inflight", field fs "live", field fs "wal", field fs "wbl", field fs "chunks" with
+  | some a, some i, some l, some wa, some wb, some ch =>
+    some { acked := setOf a, inflight := setOf i, live := setOf l,
+           wal := (layoutItems wa).filterMap parseRec, wbl := (layoutItems wb).filterMap parseRec,
+           chunks := (layoutItems ch).filterMap parseChunk }
+  | _, _, _, _, _, _ => none
+
+/-- Where in the head-chunk file the tear point lies: `chunk=<i>/<n>:<o|i>+<rel>` (inside chunk i, rel
+    bytes behind its start; rel = 0 is a chunk boundary), `end` behind the last chunk. -/
+def whereInChunks (off : Nat) (cs : List (Nat × Nat × Bool)) : String :=
+  let rec go (i : Nat) : List (Nat × Nat × Bool) → String
+    | [] => "end"
+    | (a, b, o) :: rest =>
+      if off < b then s!"chunk={i}/{cs.length}:{if o then "o" else "i"}+{off - a}" else go (i + 1) rest
+  go 1 cs
+
+/-- Verdict of one `tear` op (`none` = holds), `session` = 1 (right after the crash) or 2 (after a
+    second session and a clean restart; `acked` then includes what the second session committed). The
+    loss of out-of-order samples, and only of those, after a torn WAL record is the documented finding
+    F18 (the WBL is not replayed in the session that repairs the WAL) and gets its own signature; so
+    does finding C03-F1: the WBL was cut right behind an m-map marker record (its last complete record
+    carries no samples), the first session serves everything, and after the second session + restart
+    out-of-order samples of complete WBL records are gone (the stale marker is honoured once
+    `lastMmapRef` has moved past it; `C03.stale_marker_after_restart_witness`). -/
+def judgeTear1 (ws stage cls seg : String) (off : Nat) (st : Stage) (session : Nat) (acked : List String)
+    (o : String) (present : List String) : Option (Bool × String) :=
+  let recs := if cls = "wal" then st.wal else if cls = "wbl" then st.wbl else []
+  match tearHolds o acked st.inflight present off recs with
+  | none => none
+  | some why =>
+    let missing := (CrashTear.owed acked off recs).filter fun a => !present.contains a
+    let wblSamples := st.wbl.flatMap (·.2)
+    let extra := present.filter fun p => !(acked.contains p || st.inflight.contains p)
+    if session = 1 && cls = "wal" && o = "ok" && !CrashTear.atBoundary off recs && !missing.isEmpty && extra.isEmpty
+        && missing.all wblSamples.contains then
+      some (true, s!"violation wbl-skipped-after-wal-repair wseed={ws} stage={stage} tear=wal:{seg}:{off} missing-ooo={missing.length}")
+    else if session = 2 && cls = "wbl" && o = "ok" && !missing.isEmpty && extra.isEmpty
+        && (match (recs.filter fun r => decide (r.1 ≤ off)).getLast? with | some r => r.2.isEmpty | none => false)
+        && missing.all ((recs.filter fun r => decide (r.1 ≤ off)).flatMap (·.2)).contains then
+      some (true, s!"violation stale-mmap-marker-after-restart wseed={ws} stage={stage} tear=wbl:{seg}:{off} missing-ooo={missing.length}")
+    else
+      let wh := if cls = "chunks" then " " ++ whereInChunks off st.chunks
+                else if cls = "none" then "" else (if CrashTear.atBoundary off recs then " record-boundary" else " mid-record")
+      some (false, s!"violation crash-unsafe wseed={ws} stage={stage} tear={cls}:{seg}:{off}{wh} session={session} {why} missing={missing.length}")
+
+def judgeTear (ws stage cls seg : String) (off : Nat) (st : Stage) (fs : List String) : Option (Bool × String) :=
+  match field fs "open", field fs "present" with
+  | some o, some p =>
+    match judgeTear1 ws stage cls seg off st 1 st.acked o (setOf p) with
+    | some v => some v
+    | none =>
+      match field fs "post", field fs "open2", field fs "present2" with
+      | some post, some o2, some p2 =>
+        if o2 = "-" then none else judgeTear1 ws stage cls seg off st 2 (st.acked ++ setOf post) o2 (setOf p2)
+      | _, _, _ => none
+  | _, _ => some (false, s!"violation unparsable tear wseed={ws} stage={stage}")
+
+/-- Deletions that had started but not returned when the process was killed: `s:mint:maxt;…`. -/
+def parseDels (s : String) : List (String × Int × Int) :=
+  if s = "-" then [] else (s.splitOn ";").filterMap fun d =>
+    match d.splitOn ":" with
+    | [sr, a, b] => match a.toInt?, b.toInt? with
+      | some x, some y => some (sr, x, y)
+      | _, _ => none
+    | _ => none
+
+/-- Is the sample `s:t:v` inside one of the deletions? Such a sample is neither owed (the tombstone
+    may already be in the WAL) nor forbidden (it may not): it counts as in flight. -/
+def inDels (dels : List (String × Int × Int)) (key : String) : Bool :=
+  match key.splitOn ":" with
+  | sr :: t :: _ => match t.toInt? with
+    | some tt => dels.any fun d => d.1 == sr && decide (d.2.1 ≤ tt) && decide (tt ≤ d.2.2)
+    | none => false
+  | _ => false
+
 def judge (ops _outs : List String) : String :=
-  let rec go (ops : List String) (k : Nat) : String :=
+  -- `known`: the first verdict with the signature of a documented finding; any other violation wins
+  let rec go (ops : List String) (k : Nat) (stages : List (String × Stage)) (known : Option String) : String :=
     match ops with
-    | [] => "ok"
+    | [] => known.getD "ok"
     | op :: rest =>
       match toks op with
       | "trace" :: _ :: [tr] =>
         if tr = "notrace" then s!"violation no-trace op={k}" else
         let acts := parseTrace tr
         match run {} acts 0 with
-        | .ok _ => go rest (k + 1)
+        | .ok _ => go rest (k + 1) stages known
         | .error i => s!"violation discipline op={k} step={i} action={(tr.splitOn "|")[i]?.getD "?"}"
       | "kill" :: ws :: kind :: n :: fs =>
         match field fs "open", field fs "acked", field fs "inflight", field fs "gone", field fs "present" with
         | some o, some a, some i, some g, some p =>
-          match killHolds o (setOf a) (setOf i) (setOf g) (setOf p) with
+          let dels := parseDels ((field fs "delinflight").getD "-")
+          let acked := (setOf a).filter fun x => !inDels dels x
+          let infl := setOf i ++ (setOf a).filter (inDels dels)
+          match killHolds o acked infl (setOf g) (setOf p) with
           | some why => s!"violation crash-unsafe wseed={ws} kill={kind}:{n} {why}"
-          | none => go rest (k + 1)
+          | none => go rest (k + 1) stages known
         | _, _, _, _, _ => s!"violation unparsable op={k}"
-      | _ => go rest (k + 1)
-  go ops 0
+      | "stage" :: ws :: stage :: fs =>
+        match parseStage fs with
+        | some st =>
+          match st.acked.find? (fun a => !st.live.contains a) with
+          | some a => s!"violation acked-sample-not-visible-before-crash wseed={ws} stage={stage} {a}"
+          | none => go rest (k + 1) ((ws ++ "/" ++ stage, st) :: stages) known
+        | none => s!"violation unparsable op={k}"
+      | "tear" :: ws :: stage :: cls :: seg :: off :: fs =>
+        match stages.find? (·.1 == ws ++ "/" ++ stage), off.toNat? with
+        | some (_, st), some offN =>
+          match judgeTear ws stage cls seg offN st fs with
+          | none => go rest (k + 1) stages known
+          | some (true, v) => go rest (k + 1) stages (known.or (some v))
+          | some (false, v) => v
+        | _, _ => s!"violation unparsable op={k}"
+      | _ => go rest (k + 1) stages known
+  go ops 0 [] none
 
 def suite : Suite := { name := "crash", model := model, judge := judge }
 
